@@ -16,7 +16,7 @@ struct WorldH : World {
   int helper_pid = 0; bool helper_done = false; int helper_status = -1;
   // clean
   std::vector<std::string> unlinks;   // canonical paths qmail-clean tried to unlink under queue/ (pid/ sweeps recorded separately)
-  std::vector<std::string> pid_unlinks;
+  std::vector<std::string> pid_unlinks; std::vector<int> unlink_err;   // errno of each unlink attempt outside pid/ (0 = removed)
   // spawners
   struct Agent { std::string role; std::vector<std::string> argv; uint32_t uid, euid, gid; std::vector<uint32_t> groups; bool fd0_regular = false; uint32_t fd0_owner = 0; std::string fd0_path; std::string idseq; int pid = 0; bool used = false; };
   std::vector<Agent> agents;
@@ -118,7 +118,7 @@ struct WorldH : World {
     Proc *p = e.proc; if (!p) return;
     if (e.pid == helper_pid && e.call == C_EXIT) { helper_done = true; helper_status = (int)e.a; }
     if (mode == "clean" && p->role == "qmail-clean") {
-      if (e.call == C_UNLINK) { if (e.path.find("/queue/pid/") != std::string::npos) { if (e.ret == 0) pid_unlinks.push_back(e.path); } else unlinks.push_back(e.path); }
+      if (e.call == C_UNLINK) { if (e.path.find("/queue/pid/") != std::string::npos) { if (e.ret == 0) pid_unlinks.push_back(e.path); } else { unlinks.push_back(e.path); unlink_err.push_back(e.ret == 0 ? 0 : (int)e.err); } }
       bool mut = (e.call == C_RENAME || e.call == C_LINK || e.call == C_FTRUNCATE || e.call == C_MKDIR || (e.call == C_WRITE && e.ino) || (e.call == C_OPEN && (e.a & (O_WRONLY | O_RDWR | O_CREAT | O_TRUNC)))) && e.ret >= 0;
       if (mut) violate("C18.clean-modifies-files", std::string(call_name(e.call)) + " " + e.path);
     }
@@ -152,8 +152,12 @@ struct WorldH : World {
       // a number that no inode can have (>= 2^64) may be refused; if it is accepted, only the exactly named files may go
       bool huge = num.size() > 20 || (num.size() == 20 && num > "18446744073709551615");
       if (huge && actual == 'x') { want_resp += 'x'; continue; }
+      // qmail-clean(8): remove intd/N, then mess/N or todo/N; a removal that fails for another reason than "not there" ends the
+      // request with '!' and the second file is left alone
       want_unlinks.push_back(q + "intd/" + num);
+      { size_t ui = want_unlinks.size() - 1; int e1 = ui < unlink_err.size() && ui < unlinks.size() && unlinks[ui] == want_unlinks[ui] ? unlink_err[ui] : 0; if (e1 != 0 && e1 != ENOENT) { want_resp += '!'; k->probe("clean_unlink_failed"); continue; } }
       if (r[0] == 'f') want_unlinks.push_back(q + "mess/" + dec_mod(num, (unsigned)t.split) + "/" + num); else want_unlinks.push_back(q + "todo/" + num);
+      { size_t ui = want_unlinks.size() - 1; int e2 = ui < unlink_err.size() && ui < unlinks.size() && unlinks[ui] == want_unlinks[ui] ? unlink_err[ui] : 0; if (e2 != 0 && e2 != ENOENT) { want_resp += '!'; k->probe("clean_unlink_failed"); continue; } }
       want_resp += '+';
     }
     res->nontrivial = !reqs.empty();
